@@ -151,10 +151,73 @@ func recoverBarriers(f *ssa.Function) []*ssa.Defer {
 			}
 		})
 		if rec && (!bad || (guardExitOK && recoverThenExitsNonZero(target))) {
+			if ok, why := guardReports(f, d, target); !ok {
+				silentGuards[d] = why
+				return
+			}
 			out = append(out, d)
 		}
 	})
 	return out
+}
+
+// silentGuards: deferred recovers that stop a panic but let the guarded
+// function return as if nothing had happened (zero results, nil error).
+var silentGuards = map[*ssa.Defer]string{}
+
+// guardReports: when the guarded function has an error result, a recovered
+// panic must become a non-nil error: the deferred closure stores into the
+// named error result of f (the cell the recovery epilogue returns). With
+// unnamed results go returns zero values after a recovered panic — (nil, nil).
+func guardReports(f *ssa.Function, d *ssa.Defer, target *ssa.Function) (bool, string) {
+	ei := errorResultIndex(f.Signature)
+	if ei < 0 {
+		return true, ""
+	}
+	mc, isClosure := d.Call.Value.(*ssa.MakeClosure)
+	if !isClosure {
+		return true, "" // a method/function guard: decided by the exit rule
+	}
+	exits := false
+	eachCall(target, func(cl ssa.CallInstruction) {
+		if exitCallKind(cl) != "" {
+			exits = true
+		}
+	})
+	if exits && recoverThenExitsNonZero(target) {
+		return true, ""
+	}
+	if f.Recover == nil {
+		return false, "the function's results are unnamed: after the recovered panic it returns zero values and a nil error"
+	}
+	ret, ok := f.Recover.Instrs[len(f.Recover.Instrs)-1].(*ssa.Return)
+	if !ok || ei >= len(ret.Results) {
+		return false, "the recovery epilogue does not return the error result"
+	}
+	ld, ok := ret.Results[ei].(*ssa.UnOp)
+	if !ok {
+		return false, "the recovery epilogue returns a constant error"
+	}
+	cell := ld.X
+	stored := false
+	for k, b := range mc.Bindings {
+		if b != cell || k >= len(target.FreeVars) {
+			continue
+		}
+		fv := target.FreeVars[k]
+		if fv.Referrers() == nil {
+			continue
+		}
+		for _, r := range *fv.Referrers() {
+			if st, ok := r.(*ssa.Store); ok && st.Addr == fv && !isNilConst(st.Val) {
+				stored = true
+			}
+		}
+	}
+	if !stored {
+		return false, "the deferred function recovers but never assigns the function's named error result"
+	}
+	return true, ""
 }
 
 type guardResult struct {
@@ -411,6 +474,17 @@ func reportGuard(c *Check, rule string, res *guardResult) {
 			detail = fmt.Sprintf("%s (process exit: recover barriers do not help) reachable from the entry set", s.Kind)
 		}
 		c.Ob(rule, key, p.pos(s.Ins.Pos()), Flag, detail, chainTo(chain, s.Fn, p)...)
+	}
+	var silent []*ssa.Defer
+	for d := range silentGuards {
+		if _, ok := res.All[d.Parent()]; ok {
+			silent = append(silent, d)
+		}
+	}
+	sort.Slice(silent, func(i, j int) bool { return fnName(silent[i].Parent()) < fnName(silent[j].Parent()) })
+	for _, d := range silent {
+		c.Flagf("SILENT-GUARD", fnName(d.Parent())+"|a recovered panic becomes an error", p.pos(d.Pos()),
+			"the deferred recover stops the panic but the function then returns as if it had succeeded: %s", silentGuards[d])
 	}
 	for _, s := range res.ProtSites {
 		c.Okf(rule, fmt.Sprintf("%s|%s", fnName(s.Fn), s.Kind), p.pos(s.Ins.Pos()), "recoverable site protected by a recover barrier on every call path from the entry set")
